@@ -247,7 +247,14 @@ def name_reserved(ctx, R1="NAME-1"):
         return
     consts = set()
     Sp = Sym(prog, pred)
-    for g in prog.unit(pred):
+    units_ = list(prog.unit(pred))
+    for g0 in list(units_):
+        # a closure that only forwards to the predicate function (`any(|ch| is_reserved(ch))`)
+        for b_, t_ in g0.calls():
+            h_ = prog.callee_fn(t_)
+            if h_ is not None and h_.crate == "msi" and h_.file == "src/internal/streamname.rs" and h_ not in units_:
+                units_ += list(prog.unit(h_))
+    for g in units_:
         Sg = Sp if g is pred else Sym(prog, g)
         for bl in g.blocks:
             if bl["cleanup"]:
@@ -327,6 +334,13 @@ def b64_tables(ctx, rule="B64-TABLE"):
     pieces = set()
     for b, n, a, t in cs:
         if n.endswith("char::from_u32"):
+            mloc = re.fullmatch(r"_(\d+)", a[0])
+            if mloc:
+                # `let code = match value { 0..=9 => value + 48, .. }; char::from_u32(code)`: one piece per assignment of the local
+                for (db, di, kind, payload) in S.du.whole_defs(int(mloc.group(1))):
+                    lo, hi, ex = interval_of(S.bool_facts_at(db), "p1")
+                    pieces.add((lo if lo is not None else 0, hi, affine(S._def_val((db, di, kind, payload), int(mloc.group(1)), 0), "p1")))
+                continue
             lo, hi, ex = interval_of(S.bool_facts_at(b), "p1")
             pieces.add((lo if lo is not None else 0, hi, affine(a[0], "p1")))
     consts = []
